@@ -65,8 +65,8 @@ func (e *Ev) toIface(v Val, n ast.Node) VIface {
 	case VNil:
 		return VIface{Tag: fmt.Sprintf("%d", tagNilIface), S: e.fx.strLit("")}
 	}
-	e.unsupp(n, "cannot convert %T to interface{}", v)
-	return VIface{}
+	// any other value: dynamic type "other", contents not modelled (only error messages use such arguments)
+	return VIface{Tag: fmt.Sprintf("%d", tagOther), S: e.fx.strLit("")}
 }
 
 func (e *Ev) evTypeAssert(x *ast.TypeAssertExpr, commaOk bool) Val {
